@@ -982,6 +982,17 @@ var buildCheck = &core.Check{Name: "c14/build", Quick: 1400, Thorough: 60000, Fn
 		}
 	}
 
+	// the wallet value has been used before: a body made earlier through the same value, for a later expiry and
+	// another seqno, is no part of this request and must leave no trace in it
+	if c.Intn("used before", 4) == 0 {
+		later := uint64(validUntil) + uint64(c.OneOf("used before.later", 1, 60, 3600, 1<<20, 1<<30))
+		if later > 0xffffffff {
+			later = 0xffffffff
+		}
+		prev := wallet.MessageConfig{Seqno: seqno + uint32(c.Range("used before.seqno", 1, 9)), ValidUntil: time.Unix(int64(later), 0), V5MsgType: wallet.V5MsgTypeSignedExternal}
+		_, _ = e.w.CreateMessageBody(prev, wallet.SimpleTransfer{Amount: 1, Address: ton.AccountID{Workchain: 0}})
+		c.Class("wallet value used before for a later expiry")
+	}
 	var body walletref.Slice
 	t0 := time.Now()
 	switch path {
